@@ -545,6 +545,35 @@ func ruleWF1(c *Ctx) {
 		c.check(set.IsValid() && rec.IsValid() && clr.IsValid() && set < rec && rec < clr, rule, "ast.MacroRule.NFACons/cycle-flag", p.Pos(fd.Pos()),
 			"the in-expansion flag is set before and cleared after the recursive expansion", "the macro cycle flag is not set before and cleared after the recursive expansion")
 	}
+	// the reserved terminal names (EOF, ERROR) cannot name a parser rule either: its sugar helper rules
+	// are named after it and would coincide with those of '@error'
+	if rpk, rfd := p.FuncDecl("internal/ast", "ParserRule.RunPass"); rfd != nil {
+		okRes := false
+		for _, g := range errorGuards(rpk, rfd) {
+			for _, cnd := range g.conds {
+				ast.Inspect(cnd, func(m ast.Node) bool {
+					switch x := m.(type) {
+					case *ast.IndexExpr:
+						if o := usesObj(rpk.TypesInfo, x.X); o != nil && strings.Contains(strings.ToLower(o.Name()), "reserved") {
+							okRes = true
+						}
+					case *ast.CallExpr:
+						if fn := calleeFunc(rpk.TypesInfo, x); fn != nil && (fn.Name() == "validateTokenName" || strings.Contains(strings.ToLower(fn.Name()), "reserved")) {
+							okRes = true
+						}
+					case *ast.BasicLit:
+						if x.Value == `"ERROR"` {
+							okRes = true
+						}
+					}
+					return true
+				})
+			}
+		}
+		c.check(okRes, rule, "ast.ParserRule.RunPass/reserved-names", p.Pos(rfd.Pos()),
+			"a parser rule named like a reserved terminal (EOF, ERROR) is rejected",
+			"a parser rule may be named ERROR or EOF: its helper rules (ERROR?, ERROR+, ...) coincide with those of @error, so one term silently stands for the other")
+	}
 	// ... and a cycle is looked for at every macro *declaration*: NFACons only runs for macros some
 	// rule uses, so a cycle among unused macros would be accepted. Wanted: an error logged from the
 	// declaration's own pass (MacroRule.RunPass or a helper it calls) under a condition that walks
